@@ -35,7 +35,13 @@ import sys, json
 p, res = sys.argv[1], json.loads(sys.argv[2])
 m = json.load(open(p))
 if len(res) < 18:
-    old = m.get("caught_by_quick_checks", {}); old.update(res); res = old
+    old = m.get("caught_by_quick_checks", {})
+    for k, v in res.items():
+        # a run starved of CPU (watchdog => inconclusive) does not erase an earlier verdict
+        if v.startswith("inconclusive") and old.get(k, "").startswith(("VIOLATION", "held")):
+            continue
+        old[k] = v
+    res = old
 m["caught_by_quick_checks"] = res; json.dump(m, open(p, "w"), indent=1)
 PY
   echo "$n: $(echo "$res" | grep -o 'C[0-9]*": "VIOLATION' | cut -c1-3 | tr '\n' ' ')"
